@@ -157,6 +157,9 @@ def st_law(draw):
         lhs = {'op': 'slice', 'form': s2, 'in': {'op': 'slice', 'form': s1, 'in': S}}
         rhs = {'op': 'slice', 'form': {'k': 'ilist', 'idx': idx, 'as': 'list'}, 'in': S}
         trivial = s1 == s2 == {'k': 'slice', 'a': None, 'b': None, 'c': None}
+        if draw(st.booleans()):
+            return {'law': 'nested_slice_after_use', 'lhs': lhs, 'rhs': rhs, 'trivial': trivial,
+                    'warm': {'S': S, 's1': s1, 's2': s2, 'idx': idx}}
     elif law == 'map_slice':
         form = draw(gen.st_slice_form(n, m))
         lhs = {'op': 'slice', 'form': form, 'in': {'op': 'map', 'fn': f, 'in': S}}
@@ -220,7 +223,30 @@ def st_law(draw):
     return {'law': law, 'lhs': P_l, 'rhs': P_r, 'trivial': trivial and P_l is lhs}
 
 
+def check_warm(case):
+    """S[s1] is built and used (keys(), items(), a key lookup) BEFORE [s2] is applied to that same object."""
+    from .. import build as B
+    S = case['warm']['S']
+    s1, s2, idx = case['warm']['s1'], case['warm']['s2'], case['warm']['idx']
+    base, _ = progcheck.build_checked(S)
+    mid = base[B.make_form(s1)]
+    for use in (lambda: mid.keys(), lambda: list(mid.items()), lambda: mid[mid.keys()[0]], lambda: len(mid)):
+        try:
+            use()
+        except Exception:
+            pass
+    lhs = mid[B.make_form(s2)]
+    rhs = base[list(idx)]
+    try:
+        compare(record(lhs), record(rhs), 'nested_slice_after_use')
+    except Violation as v:
+        raise Violation(v.sig, f'S = {progs.show(S)}; mid = S[{s1}] was used (keys, items, lookup), then mid[{s2}] '
+                               f'vs S[{idx}]\n' + v.detail)
+
+
 def check(case):
+    if 'warm' in case:
+        return check_warm(case)
     import numpy as np
     if 'np_seed' in case:
         np.random.seed(case['np_seed'])
